@@ -8,6 +8,12 @@ Follows
   templates …/%service/_mixins.py.j2, _async_mixins.py.j2, client.py.j2 / async_client.py.j2 (`opts.add_iam_methods`
                              blocks), transports/_mixins.py.j2, transports/_rest_mixins_base.py.j2,
                              _shared_macros.j2 (generate_mixin_call_method, prep_wrapped_messages_async_method)
+NOT modelled (reached only through T3 on the emitted library, or not at all): the text of the ten per-method
+client blocks beyond (guard, callable looked up, routing field) — docstrings, `isinstance(request, dict)` coercion,
+`_validate_universe_domain`, error decoration; the REST interceptors and debug logging of
+`generate_mixin_call_method`; `rest_asyncio.py.j2` (experimental async REST); the import blocks guarded by
+`has_*_mixin`; `API.requires_package`; api-core's `_VARIABLE_RE` outside well-formed templates; `transcode`
+itself (external, reference implementation T2-compared).
 The model follows the code, not the intent: see `iamOverrides` (drops ALL IAM mixins),
 `restCall` (body presence is decided by the FIRST binding).  Since the `fix:` commits feb77eb / 0e4f131 the
 WaitOperation stub deserialises its reply like GetOperation (`grpcTable`) and the legacy asyncio IAM
@@ -122,6 +128,50 @@ def included (y : Yaml) (api : Api) (a : MixinApi) : Bool :=
 def mixinApiMethods (y : Yaml) (api : Api) : List (String × Rule) :=
   allApis.foldl (fun d a => if included y api a then dictMerge d (methodsFrom a y.rules) else d) []
 
+/-! ### URI templates (single-level `{var}` / `{var=template}` expressions) -/
+
+inductive Piece where
+  | text (s : List Char)
+  | var (name : List Char) (template : Option (List Char))     -- `none`: `{name}` (api-core reads it as `*`)
+deriving DecidableEq, Repr
+
+def splitVar (inner : List Char) : Piece :=
+  match inner.span (· != '=') with
+  | (n, []) => .var n none
+  | (n, _ :: t) => .var n (some t)
+
+def pieces (fuel : Nat) (s : List Char) : List Piece :=
+  match fuel with
+  | 0 => []
+  | fuel + 1 =>
+    match s with
+    | [] => []
+    | '{' :: r =>
+      let (inner, rest) := r.span (· != '}')
+      splitVar inner :: pieces fuel (rest.drop 1)
+    | _ =>
+      let (txt, rest) := s.span (· != '{')
+      .text txt :: pieces fuel rest
+
+/-- text of a template after rewriting every variable name with `fix` -/
+def renderPieces (fix : List Char → List Char) : List Piece → List Char
+  | [] => []
+  | .text s :: ps => s ++ renderPieces fix ps
+  | .var n none :: ps => '{' :: fix n ++ '}' :: renderPieces fix ps
+  | .var n (some t) :: ps => '{' :: fix n ++ '=' :: t ++ '}' :: renderPieces fix ps
+
+/-- `utils.convert_uri_fieldnames`: every `{name…}` expression of the template gets `_fix_field_path(name)`
+(`fix`; the driver passes the function TRANSLATED from /repo, `Pinned.Funcs.fix_field_path`).  Modelled domain:
+well-formed templates — every `{` is closed, names contain none of `/ = }` (api-core's `_VARIABLE_RE` and this
+scanner agree there; T2 runs both on the generated rules). -/
+def convertUri (fix : List Char → List Char) (uri : String) : String :=
+  String.ofList (renderPieces fix (pieces (uri.length + 1) uri.toList))
+
+/-- what `try_parse_http_rule` needs to know about names: `utils.RESERVED_NAMES` and `_fix_field_path` -/
+structure Names where
+  reserved : List String
+  fixPath : List Char → List Char
+
 /-! ### HTTP options -/
 
 structure HttpRule where
@@ -130,26 +180,24 @@ structure HttpRule where
   body : Option String
 deriving DecidableEq, Repr
 
-def endsWithUnderscore (s : String) : Bool := s.toList.getLast? == some '_'
-
-/-- `HttpRule.try_parse_http_rule`.  HYPOTHESIS (checked by T2 on every case and on the live
-`RESERVED_NAMES`): `utils.convert_uri_fieldnames` is the identity on the URI — true whenever every
-path variable is a field of the canonical request messages, none of which is a reserved name. -/
-def tryParse (reserved : List String) (b : Binding) : Option HttpRule :=
+/-- `HttpRule.try_parse_http_rule`: unset / custom patterns and empty URIs give nothing; the URI goes through
+`convert_uri_fieldnames`; a body naming a reserved word gets `_` appended (unconditionally since the `fix:`
+commit 3aedaba). -/
+def tryParse (nm : Names) (b : Binding) : Option HttpRule :=
   if b.verb == "" || b.verb == "custom" then none
   else if b.uri == "" then none
   else
     let body : Option String :=
       if b.body == "" then none
-      else if reserved.contains b.body && !endsWithUnderscore b.body then some (b.body ++ "_")
+      else if nm.reserved.contains b.body then some (b.body ++ "_")
       else some b.body
-    some ⟨b.verb, b.uri, body⟩
+    some ⟨b.verb, convertUri nm.fixPath b.uri, body⟩
 
 def Rule.bindings (r : Rule) : List Binding := r.main :: r.additional
 
 /-- `mixin_http_options` -/
-def mixinHttpOptions (reserved : List String) (y : Yaml) (api : Api) : List (String × List HttpRule) :=
-  (mixinApiMethods y api).map fun kv => (kv.1, kv.2.bindings.filterMap (tryParse reserved))
+def mixinHttpOptions (nm : Names) (y : Yaml) (api : Api) : List (String × List HttpRule) :=
+  (mixinApiMethods y api).map fun kv => (kv.1, kv.2.bindings.filterMap (tryParse nm))
 
 /-! ### Client templates: which mixin methods the emitted classes define -/
 
@@ -174,6 +222,24 @@ def exposedMixins (y : Yaml) (api : Api) (o : Opts) (_k : ClientKind) : List Str
   (if !o.addIam && hasMixin y .iam then tmplIam.filter (ks.contains ·) else []) ++
   (if hasMixin y .locations then tmplLocations.filter (ks.contains ·) else []) ++
   (if o.addIam then tmplIam else [])
+
+/-- `mixin_api_signatures`: `{name: MIXINS_MAP[name] for name in mixin_api_methods}` (`none` = KeyError);
+`mixinsMap` is the table bridged from gapic/schema/mixins.py -/
+def mixinApiSignatures (mixinsMap : List (String × String × String)) (y : Yaml) (api : Api) :
+    List (String × Option (String × String)) :=
+  (keys (mixinApiMethods y api)).map fun n => (n, (mixinsMap.find? (·.1 == n)).map (·.2))
+
+/-- transports/base.py.j2 `_prep_wrapped_messages` and `prep_wrapped_messages_async_method`: one entry per
+selected mixin RPC (`default_timeout=None`, no default retry), whatever the legacy option says -/
+def wrappedMixins (y : Yaml) (api : Api) : List String := keys (mixinApiMethods y api)
+
+/-- mixin stubs of the gRPC transports (transports/_mixins.py.j2 + the legacy block of grpc.py.j2 /
+grpc_asyncio.py.j2, abstract twins in base.py.j2): the same guards as the client templates -/
+def grpcTransportMixins (y : Yaml) (api : Api) (o : Opts) : List String := exposedMixins y api o .sync
+
+/-- mixin stubs of the REST transport (`_rest_mixins.py.j2`: one per entry of `mixin_api_signatures`; the
+legacy option adds nothing here) -/
+def restTransportMixins (y : Yaml) (api : Api) : List String := keys (mixinApiMethods y api)
 
 /-! ### gRPC: stub table of transports/_mixins.py.j2 and the legacy blocks of grpc.py.j2 -/
 
@@ -265,8 +331,8 @@ deriving DecidableEq, Repr
 /-- `_Base<Name>` + `generate_mixin_call_method`: `body_spec` is the FIRST binding's body; when set, the
 body of the transcoded request is serialised and sent; when unset, no body is sent whatever the
 selected binding says. -/
-def restCall (ext : Ext) (reserved : List String) (y : Yaml) (api : Api) (m : String) (req : Req) : RestOutcome :=
-  match dictGet (mixinHttpOptions reserved y api) m with
+def restCall (ext : Ext) (nm : Names) (y : Yaml) (api : Api) (m : String) (req : Req) : RestOutcome :=
+  match dictGet (mixinHttpOptions nm y api) m with
   | none => .notGenerated
   | some [] => .notGenerated
   | some (r0 :: rs) =>
@@ -309,30 +375,6 @@ def matchToksF : Nat → List Tok → List Char → Bool
 
 def matchToks (ps : List Tok) (v : List Char) : Bool := matchToksF (ps.length + v.length + 1) ps v
 
-/-- a URI template split at its (single-level) `{var}` / `{var=template}` expressions -/
-inductive Piece where
-  | text (s : List Char)
-  | var (name : List Char) (template : List Char)     -- template `*` when omitted
-deriving DecidableEq, Repr
-
-def splitVar (inner : List Char) : Piece :=
-  match inner.span (· != '=') with
-  | (n, []) => .var n ['*']
-  | (n, _ :: t) => .var n t
-
-def pieces (fuel : Nat) (s : List Char) : List Piece :=
-  match fuel with
-  | 0 => []
-  | fuel + 1 =>
-    match s with
-    | [] => []
-    | '{' :: r =>
-      let (inner, rest) := r.span (· != '}')
-      splitVar inner :: pieces fuel (rest.drop 1)
-    | _ =>
-      let (txt, rest) := s.span (· != '{')
-      .text txt :: pieces fuel rest
-
 def reqGet (req : Req) (k : String) : Option String := dictGet req k
 
 /-- JSON text of a string value → the string (the harness hands string fields over as `"…"`) -/
@@ -346,7 +388,8 @@ def unquote (s : String) : Option (List Char) :=
 def expandPieces (req : Req) : List Piece → Option (List Char)
   | [] => some []
   | .text s :: ps => (expandPieces req ps).map (s ++ ·)
-  | .var n t :: ps =>
+  | .var n t? :: ps =>
+    let t := t?.getD ['*']
     match reqGet req (String.ofList n) with
     | none => none
     | some jv =>
